@@ -3462,13 +3462,26 @@ impl CommandParser {
     }
     
     // Bit operation parsers
+    
+    /// A bit offset addresses a string of at most 512 MB, so it is below 2^32 as in Redis.
+    /// SETBIT grows the value to offset / 8 + 1 bytes: an unchecked offset is an
+    /// allocation of any size the client names
+    fn parse_bit_offset(frame: &RespFrame) -> Result<usize> {
+        const MAX_BIT_OFFSET: u64 = 1 << 32;
+        match Self::extract_string(frame)?.parse::<u64>() {
+            Ok(offset) if offset < MAX_BIT_OFFSET => Ok(offset as usize),
+            _ => Err(FerrousError::Command(CommandError::Generic(
+                "bit offset is not an integer or out of range".to_string()
+            ))),
+        }
+    }
+    
     fn parse_getbit(frames: &[RespFrame]) -> Result<BitCommand> {
         if frames.len() != 3 {
             return Err(FerrousError::Command(CommandError::WrongNumberOfArguments("GETBIT".into())));
         }
         let key = Self::extract_bytes(&frames[1])?;
-        let offset = Self::extract_string(&frames[2])?.parse::<usize>()
-            .map_err(|_| FerrousError::Command(CommandError::InvalidIntegerValue))?;
+        let offset = Self::parse_bit_offset(&frames[2])?;
         Ok(BitCommand::GetBit { key, offset })
     }
     
@@ -3477,8 +3490,7 @@ impl CommandParser {
             return Err(FerrousError::Command(CommandError::WrongNumberOfArguments("SETBIT".into())));
         }
         let key = Self::extract_bytes(&frames[1])?;
-        let offset = Self::extract_string(&frames[2])?.parse::<usize>()
-            .map_err(|_| FerrousError::Command(CommandError::InvalidIntegerValue))?;
+        let offset = Self::parse_bit_offset(&frames[2])?;
         let value = match Self::extract_string(&frames[3])?.as_str() {
             "0" => 0,
             "1" => 1,
